@@ -384,8 +384,31 @@ impl Checker {
                 EventPayload::TaskFailed { task_id, .. } => {
                     step_terminal_events.push((tkey(*task_id), "failed"));
                 }
-                EventPayload::TaskStarted { task_id, .. } => {
+                EventPayload::TaskStarted {
+                    task_id,
+                    worker_ids,
+                    ..
+                } => {
                     let k = tkey(*task_id);
+                    // C07: the crash count of a multi-node task follows its root worker, and the
+                    // restore takes the first worker of the start record for the root
+                    if worker_ids.len() > 1
+                        && let Some(core) = world.core_snapshot()
+                        && let Some(ct) = core.tasks.iter().find(|t| t.id == *task_id)
+                        && let TaskStateSnapshot::RunningMultiNode(ws) = &ct.state
+                        && ws.first() != worker_ids.first()
+                    {
+                        fnd(
+                            &mut out,
+                            "C07",
+                            "start-record-names-wrong-root",
+                            "",
+                            format!(
+                                "multi-node task {k:?} runs on {ws:?} (root first), its start is reported and journaled with workers {worker_ids:?}: after a restart the loss of the root is not counted"
+                            ),
+                            step,
+                        );
+                    }
                     if let Some((prop, oracle, since, _)) = self.must_not_start.get(&k) {
                         fnd(
                             &mut out,
@@ -3056,9 +3079,43 @@ impl Checker {
             }
         }
         // C02: a request shape blocked on the server although the worker would take it now
+        // (at rest nothing is executing, so a worker that once refused a request for lack of
+        // free resources must have enabled it again; a ready task of that class is stuck)
         for ws in &core.workers {
-            if !ws.blocked_requests.is_empty() {
-                self.probes.hit("blocked_request_at_rest");
+            if ws.blocked_requests.is_empty() {
+                continue;
+            }
+            self.probes.hit("blocked_request_at_rest");
+            let idle = match &ws.assignment {
+                WorkerAssignmentSnapshot::Sn { free, .. } => *free == ws.resources,
+                WorkerAssignmentSnapshot::Mn { .. } => false,
+            };
+            let up = world
+                .workers
+                .get(&ws.id.as_num())
+                .is_some_and(|w| w.server_connected && w.phase == WorkerPhase::Up);
+            if !idle || !up || ws.stop_reason.is_some() {
+                continue;
+            }
+            for (rq, rv) in &ws.blocked_requests {
+                let stuck = core.tasks.iter().find(|t| {
+                    t.resource_rq_id == *rq
+                        && matches!(t.state, TaskStateSnapshot::Waiting { unfinished_deps: 0 })
+                });
+                if let Some(t) = stuck {
+                    fnd(
+                        &mut out,
+                        "C02",
+                        "runnable-task-stuck",
+                        "request-blocked-on-idle-worker",
+                        format!(
+                            "at rest worker {} is idle but the server still holds its refusal of request {rq} variant {rv}: task {} of that class stays ready",
+                            ws.id, t.id
+                        ),
+                        step,
+                    );
+                    break;
+                }
             }
         }
         self.push_findings(out);
